@@ -143,7 +143,7 @@ def _one(ctx, legname, who, pkg, hdir, test, mc_cfgs, gen_cfgs, trace_cfg, kinds
             i = p.stdout.index("WARNING: DATA RACE")
             ctx.candidate(dict(kind="race", leg=legname), "data race in the %s:\n%s" % (who, p.stdout[i:i + 3000]), dict(kind="race", report=p.stdout[i:i + 3000]))
         elif p.returncode != 0:
-            raise vf.Machinery("%s harness failed rc=%d\n%s" % (legname, p.returncode, p.stdout[-3000:]))
+            ctx.harness_died(p, legname + " harness")
         res = vf.read_ndjson(outp + tag)
         if len(res) != len(items):
             raise vf.Machinery("%s harness returned %d results for %d scenarios" % (legname, len(res), len(items)))
